@@ -961,7 +961,8 @@ def _run(ctx, parts, scratch):
         'keys/values are ints, short strings and None with well-behaved __eq__/__hash__',
         'popitem(): removing the last pair, or some present key with all its pairs, are both accepted (DESIGN 5.1)',
         'update_extend(self): extending by the visible items or by all pairs are both accepted',
-        'update_extend(E, **kwargs) and the non in-place | operator are not listed by the statement: not explored',
+        'update_extend(E, **kwargs), update(self, **kwargs) and the non in-place | operator are not among the operation '
+        'shapes the statement lists: not explored',
         'an operation is enabled only when every successor the statement allows holds <= L pairs '
         '(and, in the int-key searches, only values of the domain: setdefault(k) without default needs k present)',
         'operands that are OMDs are built with add() on the class under check']
